@@ -27,9 +27,13 @@ Names(steps) == [i \in 1..Len(steps) |-> steps[i].n]
 Violations(c) ==
   LET valid == Valid(c.def, c.rule, c.mode)
       o == c.obs
+      \* a rule set holding this rule and a well-formed one is accepted iff this rule is
+      pair == IF "pair_loaded" \in DOMAIN o /\ o.pair_loaded # valid
+              THEN {IF o.pair_loaded THEN "rule-set-with-a-malformed-rule-accepted" ELSE "rule-set-of-valid-rules-rejected"}
+              ELSE {}
   IN IF valid # o.loaded
-     THEN {IF o.loaded THEN "malformed-rule-accepted" ELSE "valid-rule-rejected"}
-     ELSE IF ~valid THEN {}
+     THEN {IF o.loaded THEN "malformed-rule-accepted" ELSE "valid-rule-rejected"} \cup pair
+     ELSE IF ~valid THEN pair
      ELSE LET e == Effective(c.def, c.rule)
               okExec == <<e.authn[1].n>> \o Names(e.handlers) \o Names(e.finalizers)
               \* the error handler that answers: the first of the effective ones whose condition holds; an
@@ -45,6 +49,7 @@ Violations(c) ==
              \cup (IF o.exec_fail # failExec THEN {"effective-error-pipeline-differs"} ELSE {})
              \cup (IF o.bt # EffectiveBt(c.def, c.rule) THEN {"backtracking-setting-differs"} ELSE {})
              \cup (IF ~o.positive_ok THEN {"valid-pipeline-not-positive"} ELSE {})
+             \cup pair
 
 AdmissionViolations(c) ==
   LET valid == Valid(c.def, c.rule, c.mode)
